@@ -482,7 +482,9 @@ class Gen:
         if kind == 'type':
             return S(rng.choice(TYPE_TESTS), self.data(1))
         if kind == 'is':
-            return S('is', self.var() if rng.random() < 0.85 else self.data(0), self.expr(2))
+            # left side: a variable or an integer (`atom is Expr` is compiled to `fail` without
+            # evaluating Expr: see notes/findings-misc.md)
+            return S('is', self.var() if rng.random() < 0.85 else I(rng.choice(INTS)), self.expr(2))
         if kind == 'cmp':
             return S(rng.choice(CMPS), self.expr(1), self.expr(1))
         if kind == 'throw':
@@ -492,7 +494,7 @@ class Gen:
         if kind == 'fa':
             if rng.random() < 0.5:
                 return S('functor', self.data(1), self.data(0), self.data(0) if rng.random() < 0.5 else I(rng.choice([0, 1, 2])))
-            return S('arg', I(rng.choice([0, 1, 2, 3])) if rng.random() < 0.8 else self.data(0), self.data(2), self.data(0))
+            return S('arg', I(rng.choice([0, 1, 2, 3])) if rng.random() < 0.8 else self.var(), self.data(2), self.data(0))
         if kind == 'conj':
             return S(',', self.goal(level, d, as_data), self.goal(level, d, as_data))
         if kind == 'disj':
@@ -725,9 +727,10 @@ def directed_cases():
         (Pd('y', X), S('catch', conj([t(X), S('>', X, I(1)), S('throw', X)]), Y, conj([S('=', X, S('b', Y))]))),
         (Pd('z', X), S('catch', S('catch', S('throw', I(1)), I(2), S('=', X, A('inner'))), I(1), S('=', X, A('outer')))),
         (Pd('k', X), S('catch', conj([S('=', Z, A('foo')), S('is', X, S('+', Z, I(1)))]), S('error', Y, V('_')), S('=', X, Y))),
+        (Pd('z2', X), S(';', S('catch', S('throw', I(1)), I(1), FAIL), S('=', X, A('after')))),
         (Pd('fa', X), S('findall', Y, Pd('u', Y), X)),
         (Pd('fb', X), S('findall', S('-', Y, Z), S(';', t(Y), S('=', Y, Z)), X)),
-    ], [Pd('u', X), Pd('w', X), Pd('x', X), Pd('y', X), Pd('z', X), Pd('k', X), Pd('fa', X), Pd('fb', X),
+    ], [Pd('u', X), Pd('w', X), Pd('x', X), Pd('y', X), Pd('z', X), Pd('z2', X), Pd('k', X), Pd('fa', X), Pd('fb', X),
         S('catch', Pd('fa', X), Y, TRUE)])
     # call/N, variable goals, control constructs built at run time
     case("meta", T3 + [
